@@ -188,19 +188,47 @@ pub mod winapi {
     pub const PAGE_EXECUTE_READWRITE: u32 = 0x40;
     pub const MEM_RELEASE: u32 = 0x8000;
 
-    pub unsafe fn VirtualProtect(addr: *mut c_void, size: usize, _new: u32, old: *mut u32) -> i32 {
-        let r = with_world(|w| w.sys_mprotect(addr as u64, size as u64, 7));
-        if !old.is_null() {
-            *old = 0x20;
+    /// Windows page protection constant -> rwx bits; None = not a valid protection value
+    fn prot_bits(p: u32) -> Option<i32> {
+        Some(match p {
+            0x01 => 0, // PAGE_NOACCESS
+            0x02 => 1, // PAGE_READONLY
+            0x04 => 3, // PAGE_READWRITE
+            0x08 => 3, // PAGE_WRITECOPY
+            0x10 => 4, // PAGE_EXECUTE
+            0x20 => 5, // PAGE_EXECUTE_READ
+            0x40 => 7, // PAGE_EXECUTE_READWRITE
+            0x80 => 7, // PAGE_EXECUTE_WRITECOPY
+            _ => return None,
+        })
+    }
+    pub unsafe fn VirtualProtect(addr: *mut c_void, size: usize, new: u32, old: *mut u32) -> i32 {
+        let bits = match prot_bits(new) {
+            Some(b) => b,
+            None => return 0, // ERROR_INVALID_PARAMETER
+        };
+        if old.is_null() {
+            return 0; // ERROR_NOACCESS: lpflOldProtect must be valid
         }
+        let r = with_world(|w| w.sys_mprotect(addr as u64, size as u64, bits));
+        *old = 0x20;
         if r == 0 {
             1
         } else {
             0
         }
     }
-    pub unsafe fn VirtualAlloc(addr: *mut c_void, size: usize, _ty: u32, _prot: u32) -> *mut c_void {
-        let r = with_world(|w| w.sys_mmap(addr as u64, size as u64, 7, -1));
+    pub unsafe fn VirtualAlloc(addr: *mut c_void, size: usize, ty: u32, prot: u32) -> *mut c_void {
+        // reserving without committing gives inaccessible pages; anything else than
+        // MEM_COMMIT [| MEM_RESERVE] for a fresh address is refused
+        let bits = match prot_bits(prot) {
+            Some(b) => b,
+            None => return std::ptr::null_mut(),
+        };
+        if ty & MEM_COMMIT == 0 || ty & !(MEM_COMMIT | MEM_RESERVE) != 0 || ty & MEM_RESERVE == 0 {
+            return std::ptr::null_mut();
+        }
+        let r = with_world(|w| w.sys_mmap(addr as u64, size as u64, bits, -1));
         if r == u64::MAX {
             std::ptr::null_mut()
         } else {
@@ -234,6 +262,21 @@ pub mod winapi {
     }
     pub unsafe fn get_page_size() -> usize {
         with_world(|w| w.page_size as usize)
+    }
+    /// SYSTEM_INFO (64-bit layout): dwPageSize at byte 4, application address range at 8 / 16,
+    /// dwNumberOfProcessors at 32, dwAllocationGranularity at 40; 48 bytes in all
+    pub unsafe fn GetSystemInfo<T>(info: *mut T) {
+        let n = std::mem::size_of::<T>().min(48);
+        let mut raw = [0u8; 48];
+        let ps = with_world(|w| w.page_size as u32);
+        raw[0..2].copy_from_slice(&9u16.to_le_bytes());
+        raw[4..8].copy_from_slice(&ps.to_le_bytes());
+        raw[8..16].copy_from_slice(&0x10000u64.to_le_bytes());
+        raw[16..24].copy_from_slice(&0x7FFF_FFFE_FFFFu64.to_le_bytes());
+        raw[24..32].copy_from_slice(&0xFFFFu64.to_le_bytes());
+        raw[32..36].copy_from_slice(&16u32.to_le_bytes());
+        raw[40..44].copy_from_slice(&0x10000u32.to_le_bytes());
+        std::ptr::copy_nonoverlapping(raw.as_ptr(), info as *mut u8, n);
     }
 }
 
